@@ -25,14 +25,15 @@ static std::string canon(const sqf::runtime::value& v)
     if (v.empty()) return "nil";
     if (v.is<sqf::runtime::t_array>())
     {
-        auto arr = v.data<sqf::types::d_array>();
+        // read-only access: observing a value must not go through the mutable accessors of the container
+        const sqf::types::d_array& arr = *v.data<sqf::types::d_array>();
         std::string r = "[";
         bool first = true;
-        for (size_t i = 0; i < arr->size(); i++)
+        for (size_t i = 0; i < arr.size(); i++)
         {
             if (!first) r += ",";
             first = false;
-            r += canon(arr->at(i));
+            r += canon(arr.at(i));
         }
         return r + "]";
     }
